@@ -18,12 +18,14 @@ fn rule_sets() -> Vec<(&'static str, Vec<Rule>)> {
         ("a-shadows-ab", vec![Rule { pattern: "a/*".into(), label: "beta", number: None, mode: "commit" }, Rule { pattern: "a/b/*".into(), label: "rc", number: None, mode: "tag" }]),
         // rule prefixes that themselves contain an all-digit segment: the number is looked for *after* the prefix
         ("digit-prefixes", vec![Rule { pattern: "2024/*".into(), label: "rc", number: None, mode: "tag" }, Rule { pattern: "team/7/*".into(), label: "beta", number: None, mode: "commit" }, Rule { pattern: "99".into(), label: "alpha", number: Some(4), mode: "commit" }]),
+        // a wildcard rule whose directory part has two segments ahead of the broader rules it refines
+        ("nested-first", vec![Rule { pattern: "release/1/*".into(), label: "beta", number: None, mode: "commit" }, Rule { pattern: "release/*".into(), label: "rc", number: None, mode: "tag" }, Rule { pattern: "*".into(), label: "alpha", number: None, mode: "tag" }]),
     ]
 }
 
 // incl. tags that carry a post / dev / epoch part without a pre-release
 const TAGS: [&str; 9] = ["1.2.3", "0.0.0", "1.2.3-rc.1", "1.2.3-alpha.5.post.2", "1.2.3.post3", "2!1.2.3", "1.2.3-post.4", "1.2.3-epoch.2.post.4.dev.9", "1.2.3-dev.9"];
-const BRANCHES: [Option<&str>; 49] = [None, Some("main"), Some("develop"), Some("developx"), Some("release"), Some("release/1"), Some("release/1/x"), Some("release/x"),
+const BASE_BRANCHES: [Option<&str>; 49] = [None, Some("main"), Some("develop"), Some("developx"), Some("release"), Some("release/1"), Some("release/1/x"), Some("release/x"),
     Some("release/x/7"), Some("release/007"), Some("releasex"), Some("release1"), Some("releases/2"), Some("feature/7/foo"), Some("99"), Some("a/b/10"), Some("a/3"),
     Some("feature/4294967296"), Some("fé"), Some("staging"), Some("qa/5"), Some("qa/x"), Some("qa"),
     Some("feature/+5/login"), Some("release/+7"), Some("a/-3"), Some("feature/99999999999/7"),
@@ -34,6 +36,12 @@ const BRANCHES: [Option<&str>; 49] = [None, Some("main"), Some("develop"), Some(
     // a segment of numeric characters that are not ASCII digits (Arabic-Indic, full-width, superscript), alone or mixed with
     // ASCII digits, before a real number segment: only an all-ASCII-digit segment is "numeric"
     Some("release/٣/4"), Some("release/１２/7"), Some("qa/²/5"), Some("release/1٣/6"), Some("feature/٣x/8"), Some("release/½/9")];
+
+/// deep names: the first all-digit segment sits 1 .. 10 segments behind the rule prefix, last or followed by another segment
+/// (explored with a reduced flag product: one commit ahead, no override flags)
+const DEEP_BRANCHES: [&str; 40] = ["feature/42", "feature/42/tail-fix", "feature/s1/42", "feature/s1/42/tail-fix", "feature/s1/s2/42", "feature/s1/s2/42/tail-fix", "feature/s1/s2/s3/42", "feature/s1/s2/s3/42/tail-fix", "feature/s1/s2/s3/s4/42", "feature/s1/s2/s3/s4/42/tail-fix", "feature/s1/s2/s3/s4/s5/42", "feature/s1/s2/s3/s4/s5/42/tail-fix", "feature/s1/s2/s3/s4/s5/s6/42", "feature/s1/s2/s3/s4/s5/s6/42/tail-fix", "feature/s1/s2/s3/s4/s5/s6/s7/42", "feature/s1/s2/s3/s4/s5/s6/s7/42/tail-fix", "feature/s1/s2/s3/s4/s5/s6/s7/s8/42", "feature/s1/s2/s3/s4/s5/s6/s7/s8/42/tail-fix", "feature/s1/s2/s3/s4/s5/s6/s7/s8/s9/42", "feature/s1/s2/s3/s4/s5/s6/s7/s8/s9/42/tail-fix", "release/42", "release/42/tail-fix", "release/s1/42", "release/s1/42/tail-fix", "release/s1/s2/42", "release/s1/s2/42/tail-fix", "release/s1/s2/s3/42", "release/s1/s2/s3/42/tail-fix", "release/s1/s2/s3/s4/42", "release/s1/s2/s3/s4/42/tail-fix", "release/s1/s2/s3/s4/s5/42", "release/s1/s2/s3/s4/s5/42/tail-fix", "release/s1/s2/s3/s4/s5/s6/42", "release/s1/s2/s3/s4/s5/s6/42/tail-fix", "release/s1/s2/s3/s4/s5/s6/s7/42", "release/s1/s2/s3/s4/s5/s6/s7/42/tail-fix", "release/s1/s2/s3/s4/s5/s6/s7/s8/42", "release/s1/s2/s3/s4/s5/s6/s7/s8/42/tail-fix", "release/s1/s2/s3/s4/s5/s6/s7/s8/s9/42", "release/s1/s2/s3/s4/s5/s6/s7/s8/s9/42/tail-fix"];
+const N_BRANCHES: usize = BASE_BRANCHES.len() + DEEP_BRANCHES.len();
+fn branch_name(i: usize) -> Option<&'static str> { if i < BASE_BRANCHES.len() { BASE_BRANCHES[i] } else { Some(DEEP_BRANCHES[i - BASE_BRANCHES.len()]) } }
 
 #[derive(Clone, Debug)]
 struct Case { tag: usize, branch: usize, distance: Option<u64>, dirty_flag: usize, post: Option<u64>, label: Option<&'static str>, num: Option<u32>, mode: Option<&'static str>, rules: usize, hash_len: Option<usize>, stdin: bool }
@@ -48,7 +56,7 @@ fn tag_vars(tag: &str) -> (RVars, String) {
 fn argv(c: &Case, sets: &[(&'static str, Vec<Rule>)]) -> Vec<String> {
     let mut v = a(&["flow"]);
     if c.stdin { v.extend(a(&["--source", "stdin"])); } else { v.extend(a(&["--source", "none", "--tag-version", TAGS[c.tag]])); }
-    if let Some(b) = BRANCHES[c.branch] { v.extend(a(&["--bumped-branch", b])); }
+    if let Some(b) = branch_name(c.branch) { v.extend(a(&["--bumped-branch", b])); }
     if let Some(d) = c.distance { v.extend(a(&["--distance", &d.to_string()])); }
     match c.dirty_flag { 1 => v.push("--dirty".into()), 2 => v.push("--no-dirty".into()), 3 => v.push("--clean".into()), _ => {} }
     if let Some(p) = c.post { v.extend(a(&["--post", &p.to_string()])); }
@@ -87,7 +95,7 @@ fn judge(ctx: &Ctx, c: &Case, tags: &[(RVars, String)], sets: &[(&'static str, V
     let tag = &tags[c.tag].0;
     // stdin source: the document's own distance/dirty/branch are absent (tag doc from source none)
     let inp = FlowInput {
-        branch: BRANCHES[c.branch].map(String::from),
+        branch: branch_name(c.branch).map(String::from),
         distance: if clean { None } else { c.distance },
         dirty: match c.dirty_flag { 1 => Some(true), 2 | 3 => Some(false), _ => None },
         flag_post: c.post, flag_label: c.label, flag_num: c.num, flag_mode: c.mode, hash_len,
@@ -146,7 +154,7 @@ fn main() {
         use zerv::cli::flow::branch_rules::BranchRules;
         for (name, rules) in &sets {
             let br = BranchRules::from_str(&flow::rules_ron(rules)).unwrap_or_else(|e| machinery_error(&format!("rule set {name}: {e}")));
-            for b in BRANCHES.iter().flatten() {
+            for b in (0..N_BRANCHES).filter_map(branch_name) {
                 s3.inc("resolve_for_branch_cases");
                 let got = br.resolve_for_branch(Some(b));
                 let e = flow::expect(&RVars { major: Some(1), ..Default::default() }, rules, &FlowInput { branch: Some(b.to_string()), distance: Some(1), hash_len: 5, ..Default::default() }, now);
@@ -184,7 +192,7 @@ fn main() {
     cov.evaluations = all.get("runs") + all.get("resolve_for_branch_cases");
     cov.traces_validated = cov.evaluations;
     cov.distinct_nontrivial = all.get("active_cases");
-    cov.rule = format!("full product tag{TAGS:?} x {} branch names (incl. prefix-without-slash, digit segments, zero-padded, u32-overflowing, non-ASCII, absent) x distance[none,0,1,5] x dirty[unset,--dirty,--no-dirty,--clean] x --post x --pre-release-label x --pre-release-num x --post-mode x 5 rule sets{}, run through run_flow_pipeline with --output-format zerv on source none{} and compared field by field with R-FLOW; hash lengths 0..11 x branches x 2 tags against R-SIP; BranchRules::resolve_for_branch directly. non-trivial = active (dirty or ahead) cases", BRANCHES.len(), if ctx.quick() { " (quick: 4 tags, distance without 5)" } else { "" }, if ctx.quick() { " (+ a strided stdin slice)" } else { " and stdin" });
+    cov.rule = format!("full product tag{TAGS:?} x {} branch names (incl. prefix-without-slash, digit segments, zero-padded, u32-overflowing, non-ASCII, absent; 40 of them with the number 1..10 segments deep, on a reduced flag product) x distance[none,0,1,5] x dirty[unset,--dirty,--no-dirty,--clean] x --post x --pre-release-label x --pre-release-num x --post-mode x 6 rule sets{}, run through run_flow_pipeline with --output-format zerv on source none{} and compared field by field with R-FLOW; hash lengths 0..11 x branches x 2 tags against R-SIP; BranchRules::resolve_for_branch directly. non-trivial = active (dirty or ahead) cases", N_BRANCHES, if ctx.quick() { " (quick: 4 tags, distance without 5)" } else { "" }, if ctx.quick() { " (+ a strided stdin slice)" } else { " and stdin" });
     cov.exhaustive = true;
     cov.samples = vec![json!(argv(&cases[cases.len() / 2], &sets)), json!(argv(&cases[cases.len() - 3], &sets)), json!(argv(&hs[17], &sets))];
     cov.set("clause_counts", all.to_json());
@@ -198,7 +206,8 @@ fn space(quick: bool, sets: &[(&'static str, Vec<Rule>)]) -> Vec<Case> {
     let tags: Vec<usize> = if quick { vec![0, 2, 3, 6] } else { (0..TAGS.len()).collect() };
     let distances: Vec<Option<u64>> = if quick { vec![None, Some(0), Some(1)] } else { vec![None, Some(0), Some(1), Some(5)] };
     let mut n = 0usize;
-    for &tag in &tags { for branch in 0..BRANCHES.len() { for &distance in &distances { for dirty_flag in 0..4 { for post in [None, Some(7u64)] { for label in [None, Some("rc")] { for num in [None, Some(3u32)] { for mode in [None, Some("tag"), Some("commit")] { for rules in 0..sets.len() {
+    for &tag in &tags { for branch in 0..N_BRANCHES { for &distance in &distances { for dirty_flag in 0..4 { for post in [None, Some(7u64)] { for label in [None, Some("rc")] { for num in [None, Some(3u32)] { for mode in [None, Some("tag"), Some("commit")] { for rules in 0..sets.len() {
+        if branch >= BASE_BRANCHES.len() && !(distance == Some(1) && dirty_flag == 0 && post.is_none() && label.is_none() && num.is_none()) { continue; }
         n += 1;
         v.push(Case { tag, branch, distance, dirty_flag, post, label, num, mode, rules, hash_len: None, stdin: false });
         if !quick || n % 9 == 0 { v.push(Case { tag, branch, distance, dirty_flag, post, label, num, mode, rules, hash_len: None, stdin: true }); }
@@ -208,7 +217,7 @@ fn space(quick: bool, sets: &[(&'static str, Vec<Rule>)]) -> Vec<Case> {
 
 fn hash_space() -> Vec<Case> {
     let mut v = vec![];
-    for hash_len in 0..=11usize { for branch in 1..BRANCHES.len() { for tag in [0usize, 2] { for rules in [0usize, 1] {
+    for hash_len in 0..=11usize { for branch in 1..BASE_BRANCHES.len() { for tag in [0usize, 2] { for rules in [0usize, 1] {
         v.push(Case { tag, branch, distance: Some(1), dirty_flag: 0, post: None, label: None, num: None, mode: None, rules, hash_len: Some(hash_len), stdin: false });
     }}}}
     v
